@@ -155,7 +155,7 @@ func InitFolderStructure(myid int64) error {
 		return fmt.Errorf("InitFolderStructure: failed to marshal initial folder structure: %v", err)
 	}
 
-	if err := os.WriteFile(filePath, data, 0644); err != nil {
+	if err := utils.AtomicWriteFile(filePath, data, utils.Truncate); err != nil {
 		return fmt.Errorf("InitFolderStructure: failed to write initial folder structure: %v", err)
 	}
 
@@ -251,7 +251,7 @@ func writeFolderStructure(structure *FolderStructure, myid int64) error {
 		return fmt.Errorf("writeFolderStructure: failed to marshal folder structure: %v", err)
 	}
 
-	if err := os.WriteFile(getFolderStructureFilePath(myid), data, 0644); err != nil {
+	if err := utils.AtomicWriteFile(getFolderStructureFilePath(myid), data, utils.Truncate); err != nil {
 		return fmt.Errorf("writeFolderStructure: failed to write folder structure: %v", err)
 	}
 
@@ -801,7 +801,7 @@ func migrateToFolderStructure(myid int64) error {
 		return fmt.Errorf("migrateToFolderStructure: failed to marshal folder structure: %v", err)
 	}
 
-	if err := os.WriteFile(folderFile, newData, 0644); err != nil {
+	if err := utils.AtomicWriteFile(folderFile, newData, utils.Truncate); err != nil {
 		return fmt.Errorf("migrateToFolderStructure: failed to write folder structure: %v", err)
 	}
 
